@@ -132,6 +132,12 @@ func (vc *VC) discharge(o *Obligation, outDir string, timeoutS int) {
 	if o.Cover && timeoutS > 4 {
 		timeoutS = 4
 	}
+	// a goal that is literally false can only be discharged by an infeasible path: a reachability
+	// query, given the same short budget as covers and no long retry
+	reachOnly := !o.Cover && o.Goal == "false"
+	if reachOnly && timeoutS > 4 {
+		timeoutS = 4
+	}
 	want := "unsat"
 	if o.Cover {
 		want = "sat"
@@ -167,7 +173,7 @@ func (vc *VC) discharge(o *Obligation, outDir string, timeoutS int) {
 	}
 	// last resort before reporting an undischarged obligation: one more, longer, uncontended attempt
 	// (guards against timeouts caused by machine load rather than by the obligation)
-	if !o.Cover {
+	if !o.Cover && !reachOnly {
 		retryMu.Lock()
 		for _, s := range solvers[:2] {
 			r := runSolver(context.Background(), s, script, outDir, base+".retry", timeoutS*3, false)
